@@ -216,6 +216,8 @@ def main():
     # ------------------------------------------------------------------ extended domain (oracle only)
     import c13_zoo
     c13_zoo.run_zoo(run)
+    import c13_params
+    c13_params.run_params(run, drv)
     run.finish("proof")
 
 
